@@ -128,7 +128,12 @@ def run_case(rng, tier, idx):
         ref = k0uu @ cu
         den = S0 + np.abs(k0uu) @ np.abs(cu); den = den + 1e-9 * den.max() + 1e-300
         c.judge('fint reduces to k0*c for vanishing amplitudes', float((np.abs(D0 - ref) / den).max()), 1e-9)
-    # directional derivatives
+    # directional derivatives.  fint = k0*c + non-linear integrals: a row of fint can be orders of magnitude smaller than the
+    # products |k0_ij c_j| it is summed from, and the stencil inherits that cancellation: 1e-6 of sum_j |k0_ij|(|c_j| + 2|dc_j|)
+    # enters the scale, i.e. an absolute allowance of ~5 eps of those products at the 1e-9 tolerance
+    # (the quadrature sums of the harmonic rows cancel likewise: rows below 1e-6 of the largest row scale are judged against that floor)
+    def lin_noise(dc):
+        return 1e-6 * (np.abs(k0uu) @ (np.abs(cu) + 2 * np.abs(dc)))
     worst = 0.0
     dirs = []
     for k in range(4):
@@ -136,10 +141,10 @@ def run_case(rng, tier, idx):
         D, S = stencil(fint, cu, dc)
         if k == 0:
             D2, _ = stencil(fint, cu, dc, h=0.5)
-            den = S + np.abs(KT) @ np.abs(dc); den = den + 1e-9 * den.max() + 1e-300
+            den = S + np.abs(KT) @ np.abs(dc) + lin_noise(dc); den = den + 1e-6 * den.max() + 1e-300
             c.judge('fint is a polynomial of degree <= 4 along the direction (stencils at h and h/2 agree)', float((np.abs(D - D2) / den).max()), 1e-9)
         got = KT @ dc
-        den = S + np.abs(KT) @ np.abs(dc); den = den + 1e-9 * den.max() + 1e-300
+        den = S + np.abs(KT) @ np.abs(dc) + lin_noise(dc); den = den + 1e-6 * den.max() + 1e-300
         e = float((np.abs(got - D) / den).max())
         worst = max(worst, e)
         dirs.append((dc, D, den))
